@@ -107,6 +107,11 @@ def findHash : Bytes → Option Nat
   | [] => none
   | c :: r => if c = 35 then some 0 else (findHash r).map (· + 1)
 
+/-- `*read_head ? strchr(read_head + 1,'#') : NULL`, as an offset from `read_head` -/
+def nextHash : Bytes → Option Nat
+  | [] => none
+  | _ :: t => (findHash t).map (· + 1)
+
 /-- `while(to_copy-->0 && *read_head != ':') *write_head++ = *read_head++;` -/
 def copyN : Nat → Bytes → Buf → Nat → M (Bytes × Buf × Nat)
   | 0, rh, b, wh => .ok (rh, b, wh)
@@ -133,15 +138,11 @@ def recurse0 (k : Buf → M (List Call × Buf)) (o : Opts) :
     Nat → Bytes → Nat → Buf → M (List Call × Buf)
   | 0, _, _, _ => .error .undef
   | f + 1, rh, wh, b =>
-    -- hash_ptr = *read_head ? strchr(read_head + 1,'#') : NULL
-    let hash : Option Nat := match rh with
-      | [] => none
-      | _ :: t => (findHash t).map (· + 1)
-    let toCopy := hash.getD rh.length
-    match copyN toCopy rh b wh with
+    -- hash_ptr = *read_head ? strchr(read_head + 1,'#') : NULL;  to_copy = hash_ptr ? … : strlen(read_head)
+    match copyN ((nextHash rh).getD rh.length) rh b wh with
     | .error e => .error e
     | .ok (rh1, b1, wh1) =>
-      match hash with
+      match nextHash rh with
       | some _ =>
         match rh1 with
         | [] => .error .oob                    -- ++read_head behind the terminator
